@@ -164,4 +164,65 @@ theorem pbndAll (n : Nat) : PBndAll n := by
   | zero => exact pbndAll_zero
   | succ n ih => exact pbndAll_succ n ih
 
+/-! ### the statements in plain form -/
+
+theorem parseAtom_progress {n ts a rest} (h : parseAtom n none ts = .ok a rest) : rest.length < ts.length :=
+  ((pbndAll n).parseAtom none ts).elim h
+theorem parseAtom_suffix {n pre ts a rest} (h : parseAtom n pre ts = .ok a rest) : rest.length ≤ ts.length := by
+  have := ((pbndAll n).parseAtom pre ts).elim h
+  cases pre <;> simp only [optLen] at this <;> omega
+theorem parsePostfix_progress {n l ts a rest} (h : parsePostfix n l none ts = .ok a rest) : rest.length < ts.length :=
+  ((pbndAll n).parsePostfix l none ts).elim h
+theorem postfixLoop_suffix {n l acc ts a rest} (h : postfixLoop n l acc ts = .ok a rest) : rest.length ≤ ts.length :=
+  Nat.le_of_lt_succ (((pbndAll n).postfixLoop l acc ts).elim h)
+theorem parseTier_progress {n k l ts a rest} (h : parseTier n k l none ts = .ok a rest) : rest.length < ts.length :=
+  ((pbndAll n).parseTier k l none ts).elim h
+theorem parseTier_suffix {n k l pre ts a rest} (h : parseTier n k l pre ts = .ok a rest) : rest.length ≤ ts.length := by
+  have := ((pbndAll n).parseTier k l pre ts).elim h
+  cases pre <;> simp only [optLen] at this <;> omega
+theorem tierLoop_suffix {n k l acc ts a rest} (h : tierLoop n k l acc ts = .ok a rest) : rest.length ≤ ts.length :=
+  Nat.le_of_lt_succ (((pbndAll n).tierLoop k l acc ts).elim h)
+theorem parseExpr1_progress {n s l ts a rest} (h : parseExpr1 n s l none ts = .ok a rest) : rest.length < ts.length :=
+  ((pbndAll n).parseExpr1 s l none ts).elim h
+theorem parseExpr1_suffix {n s l pre ts a rest} (h : parseExpr1 n s l pre ts = .ok a rest) :
+    rest.length ≤ ts.length := by
+  have := ((pbndAll n).parseExpr1 s l pre ts).elim h
+  cases pre <;> simp only [optLen] at this <;> omega
+theorem rangeLoop_suffix {n s l acc ts a rest} (h : rangeLoop n s l acc ts = .ok a rest) : rest.length ≤ ts.length :=
+  Nat.le_of_lt_succ (((pbndAll n).rangeLoop s l acc ts).elim h)
+theorem parseExpr_progress {n s ts e rest} (h : parseExpr n s ts = .ok e rest) : rest.length < ts.length :=
+  ((pbndAll n).parseExpr s ts).elim h
+theorem parseIndexTail_progress {n e ts a rest} (h : parseIndexTail n e ts = .ok a rest) : rest.length < ts.length :=
+  ((pbndAll n).parseIndexTail e ts).elim h
+theorem parseRangeEnd_progress {n e s ts a rest} (h : parseRangeEnd n e s ts = .ok a rest) : rest.length < ts.length :=
+  ((pbndAll n).parseRangeEnd e s ts).elim h
+theorem parseArgs_progress {n acc ts a rest} (h : parseArgs n acc ts = .ok a rest) : rest.length < ts.length :=
+  ((pbndAll n).parseArgs acc ts).elim h
+theorem parseExprList_progress {n acc ts a rest} (h : parseExprList n acc ts = .ok a rest) : rest.length < ts.length :=
+  ((pbndAll n).parseExprList acc ts).elim h
+theorem parseParams_progress {n acc ts a rest} (h : parseParams n acc ts = .ok a rest) : rest.length < ts.length :=
+  ((pbndAll n).parseParams acc ts).elim h
+theorem parsePropItems_progress {n acc ts a rest} (h : parsePropItems n acc ts = .ok a rest) :
+    rest.length < ts.length := ((pbndAll n).parsePropItems acc ts).elim h
+theorem parsePropTail_progress {n acc ts a rest} (h : parsePropTail n acc ts = .ok a rest) : rest.length < ts.length :=
+  ((pbndAll n).parsePropTail acc ts).elim h
+theorem parseBlock_progress {n ts a rest} (h : parseBlock n ts = .ok a rest) : rest.length < ts.length :=
+  ((pbndAll n).parseBlock ts).elim h
+theorem parseStmts_suffix {n c acc ts a rest} (h : parseStmts n c acc ts = .ok a rest) : rest.length ≤ ts.length :=
+  Nat.le_of_lt_succ (((pbndAll n).parseStmts c acc ts).elim h)
+theorem parseIf_progress {n ts a rest} (h : parseIf n ts = .ok a rest) : rest.length < ts.length :=
+  ((pbndAll n).parseIf ts).elim h
+theorem parseStmtTail_suffix {n lhs ts a rest} (h : parseStmtTail n lhs ts = .ok a rest) : rest.length ≤ ts.length :=
+  Nat.le_of_lt_succ (((pbndAll n).parseStmtTail lhs ts).elim h)
+theorem parseExprStmt_progress {n amb l ts a rest} (h : parseExprStmt n amb l none ts = .ok a rest) :
+    rest.length < ts.length := ((pbndAll n).parseExprStmt amb l none ts).elim h
+theorem parseExprStmt_suffix {n amb l pre ts a rest} (h : parseExprStmt n amb l pre ts = .ok a rest) :
+    rest.length ≤ ts.length := by
+  have := ((pbndAll n).parseExprStmt amb l pre ts).elim h
+  cases pre <;> simp only [optLen] at this <;> omega
+theorem parseRawStmt_progress {n amb ts a rest} (h : parseRawStmt n amb ts = .ok a rest) : rest.length < ts.length :=
+  ((pbndAll n).parseRawStmt amb ts).elim h
+theorem parseBraceStmt_progress {n amb l ts a rest} (h : parseBraceStmt n amb l ts = .ok a rest) :
+    rest.length < ts.length := ((pbndAll n).parseBraceStmt amb l ts).elim h
+
 end Seed
